@@ -23,9 +23,11 @@ import (
 	"net/http/httptest"
 	"net/url"
 	"strings"
+	"sync"
 	"testing"
 	"time"
 
+	golog "github.com/Cloud-Foundations/golib/pkg/log"
 	"github.com/go-jose/go-jose/v4"
 	"github.com/go-jose/go-jose/v4/jwt"
 )
@@ -64,6 +66,9 @@ func vf12Secret(client string) string {
 	return ""
 }
 
+// vf12MintBackdated: the next minted code is the one an authorization 300 s before its expiry produced
+var vf12MintBackdated bool
+
 // mintCode builds a code the way idpOpenIDCAuthorizationHandler does (same struct, same sealing
 // functions, same signer), with chosen expiry / kind / sealed challenge.
 func (e *vf4Env) vf12MintCode(client, method, challenge string, sealed bool, exp int64, kind string) (string, error) {
@@ -77,6 +82,11 @@ func (e *vf4Env) vf12MintCode(client, method, challenge string, sealed bool, exp
 	tokc.Scope = "openid"
 	tokc.AuthExpiration = time.Now().Unix() + maxAgeSecondsAuthCookie
 	tokc.Expiration = exp
+	if vf12MintBackdated {
+		// exactly what the authorization handler would have minted at exp - 300 s
+		tokc.IssuedAt = exp - idpOpenIDCMaxAuthProcessMaxDurationSeconds
+		tokc.AuthExpiration = tokc.IssuedAt + maxAgeSecondsAuthCookie
+	}
 	tokc.Username = vf12User
 	tokc.RedirectURI = vf12Redirect
 	tokc.Type = kind
@@ -191,6 +201,12 @@ func (e *vf4Env) vf12Userinfo(tok string) string {
 // vf12Redeem presents a code to the real token endpoint and, on release, verifies the tokens against
 // the JWKS handler's keys and feeds them to the real userinfo handler.
 func (e *vf4Env) vf12Redeem(code string, payload []byte, by, prot, client, secret, verifier, redirect, place string) (string, error) {
+	return e.vf12RedeemHook(code, payload, by, prot, client, secret, verifier, redirect, place, nil)
+}
+
+// vf12RedeemHook: `after` (if any) runs as soon as the token handler has returned, before the
+// released tokens are looked at.
+func (e *vf4Env) vf12RedeemHook(code string, payload []byte, by, prot, client, secret, verifier, redirect, place string, after func()) (string, error) {
 	st := e.state
 	form := url.Values{}
 	form.Set("grant_type", "authorization_code")
@@ -217,6 +233,9 @@ func (e *vf4Env) vf12Redeem(code string, payload []byte, by, prot, client, secre
 	}
 	now := time.Now().Unix()
 	rr, p := vfServe(st.idpOpenIDCTokenHandler, r)
+	if after != nil {
+		after()
+	}
 	if p != nil {
 		return "", fmt.Errorf("token handler panicked: %v", p)
 	}
@@ -719,6 +738,249 @@ func vf12Slow(f []string, hand, loaded *vf4Env) string {
 	return "slow | " + strings.Join(outs, " ;; ")
 }
 
+// ---------------------------------------------------------------- round 5: access tokens around their expiry; overlapping token requests
+
+// vf12Uix presents to the real userinfo handler an access token as the token endpoint mints it (same struct,
+// same signer), for a session whose 16 h end <expOffset> seconds away from now.
+//
+//	uix <type: bearer|token_endpoint|none> <expOffset> <issuer: right|wrong> <signer: real|foreign> <aud: none|userinfo|other>
+//
+// output: `uix <ok:userhex|statusNNN> | now= by= wire=`
+func (e *vf4Env) vf12Uix(f []string) (string, error) {
+	st := e.state
+	var off int64
+	if _, err := fmt.Sscanf(f[2], "%d", &off); err != nil {
+		return "bad-op", nil
+	}
+	now := time.Now().Unix()
+	tok := bearerAccessToken{Issuer: st.idpGetIssuer(), Username: vf12User, Scope: "openid", Expiration: now + off,
+		IssuedAt: now + off - maxAgeSecondsAuthCookie + 1, Type: f[1]}
+	if f[1] == "none" {
+		tok.Type = ""
+	}
+	if f[3] == "wrong" {
+		tok.Issuer = "https://evil.example.com"
+	}
+	switch f[5] {
+	case "userinfo":
+		tok.Audience = []string{"https://api.localhost", st.idpGetIssuer() + idpOpenIDCUserinfoPath}
+	case "other":
+		tok.Audience = []string{"https://api.localhost"}
+	}
+	payload, err := json.Marshal(tok)
+	if err != nil {
+		return "", err
+	}
+	var key interface{} = st.Signer
+	by := "1"
+	if f[4] == "foreign" {
+		key, by = e.frsa, "11"
+	}
+	compact, err := vf4JoseSign(key, jose.RS256, payload, false)
+	if err != nil {
+		return "", err
+	}
+	now = time.Now().Unix()
+	return fmt.Sprintf("uix %s | now=%d by=%s wire=%s", e.vf12Userinfo(compact), now, by, hex.EncodeToString(payload)), nil
+}
+
+// vf12Park: the n-th log statement (of the package logger or of the state's logger) executed after arming
+// blocks until released — the way to hold one request at a chosen statement inside a handler.
+type vf12Park struct {
+	mu        sync.Mutex
+	countdown int // < 0: not armed
+	at        string
+	entered   chan struct{}
+	release   chan struct{}
+}
+
+func (p *vf12Park) arm(n int) {
+	p.mu.Lock()
+	p.countdown, p.at = n, ""
+	p.entered, p.release = make(chan struct{}), make(chan struct{})
+	p.mu.Unlock()
+}
+
+func (p *vf12Park) disarm() {
+	p.mu.Lock()
+	p.countdown = -1
+	p.mu.Unlock()
+}
+
+func (p *vf12Park) hit(what string) {
+	p.mu.Lock()
+	if p.countdown < 0 {
+		p.mu.Unlock()
+		return
+	}
+	if p.countdown > 0 {
+		p.countdown--
+		p.mu.Unlock()
+		return
+	}
+	p.countdown = -1
+	p.at = what
+	entered, release := p.entered, p.release
+	p.mu.Unlock()
+	close(entered)
+	<-release
+}
+
+type vf12ParkLogger struct {
+	golog.DebugLogger
+	p *vf12Park
+}
+
+func (l vf12ParkLogger) Debug(level uint8, v ...interface{}) {
+	l.p.hit("Debug")
+	l.DebugLogger.Debug(level, v...)
+}
+func (l vf12ParkLogger) Debugf(level uint8, format string, v ...interface{}) {
+	l.p.hit(format)
+	l.DebugLogger.Debugf(level, format, v...)
+}
+func (l vf12ParkLogger) Debugln(level uint8, v ...interface{}) {
+	l.p.hit("Debugln")
+	l.DebugLogger.Debugln(level, v...)
+}
+func (l vf12ParkLogger) Print(v ...interface{}) {
+	l.p.hit("Print")
+	l.DebugLogger.Print(v...)
+}
+func (l vf12ParkLogger) Printf(format string, v ...interface{}) {
+	l.p.hit(format)
+	l.DebugLogger.Printf(format, v...)
+}
+func (l vf12ParkLogger) Println(v ...interface{}) {
+	l.p.hit("Println")
+	l.DebugLogger.Println(v...)
+}
+
+type vf12Presenter struct{ client, secret, verifier, place string }
+
+// vf12Race: two token requests for the SAME code overlap. The first is held at its k-th log statement, for
+// k = 0, 1, 2, … until it runs through without reaching a k-th one; while it is held the second request is
+// sent and given <wait ms> to finish on its own; then the first is released. Every request is reported
+// exactly like a `tok` op (and judged exactly like one: each on its own).
+//
+//	race <codeClient> <method> <via> <present1> <secret1> <verifier1> <place1> <present2> <secret2> <verifier2> <place2> <wait ms>
+//
+// output: `race | k=<k> parked=<0|1> at=<hex of the log format> waited=<0|1> || <redeem 1> || <redeem 2> ;; …`
+func (e *vf4Env) vf12Race(f []string) string {
+	st := e.state
+	codeClient, method, via := f[1], f[2], f[3]
+	var waitMs int64
+	fmt.Sscan(f[12], &waitMs)
+	sealed := method != "nochallenge"
+	sealMethod := method
+	if method == "none" {
+		sealMethod = ""
+	}
+	challenge := vf12Verifier
+	if method == "S256" {
+		challenge = vf12S256(vf12Verifier)
+	}
+	prot := "-"
+	if sealed {
+		prot = vfHex(sealMethod) + ":" + vfHex(challenge)
+	}
+	var code string
+	var err error
+	if via == "authz" {
+		ch := challenge
+		if !sealed {
+			ch = ""
+		}
+		code, err = e.vf12AuthzCode(codeClient, sealMethod, ch)
+	} else {
+		code, err = e.vf12MintCode(codeClient, sealMethod, challenge, sealed, time.Now().Unix()+idpOpenIDCMaxAuthProcessMaxDurationSeconds, "token_endpoint")
+	}
+	if err != nil {
+		return "harness-error " + strings.Join(strings.Fields(err.Error()), "_")
+	}
+	payload, _ := vf4Payload(code)
+	presenter := func(g []string) vf12Presenter {
+		p := vf12Presenter{client: codeClient, place: g[3]}
+		switch g[0] {
+		case "other":
+			p.client = map[string]string{vf12S1: vf12S2, vf12P1: vf12P2}[codeClient]
+		case "otherType":
+			p.client = map[string]string{vf12S1: vf12P1, vf12P1: vf12S1}[codeClient]
+		}
+		switch g[1] {
+		case "right":
+			p.secret = vf12Secret(p.client)
+		case "wrong":
+			p.secret = "not-the-secret"
+		case "codeClients":
+			p.secret = vf12Secret(codeClient)
+		}
+		switch g[2] {
+		case "right":
+			p.verifier = vf12Verifier
+		case "wrong":
+			p.verifier = vf12Wrong
+		case "challenge":
+			p.verifier = challenge
+		}
+		return p
+	}
+	p1, p2 := presenter(f[4:8]), presenter(f[8:12])
+	park := &vf12Park{countdown: -1}
+	oldGlobal, oldState := logger, st.logger
+	logger, st.logger = vf12ParkLogger{oldGlobal, park}, vf12ParkLogger{oldState, park}
+	defer func() { logger, st.logger = oldGlobal, oldState }()
+	type res struct {
+		out string
+		err error
+	}
+	redeem := func(p vf12Presenter, after func()) res {
+		out, err := e.vf12RedeemHook(code, payload, "1", prot, p.client, p.secret, p.verifier, vf12Redirect, p.place, after)
+		return res{out, err}
+	}
+	var outs []string
+	for k := 0; k < 40; k++ {
+		park.arm(k)
+		d1, d2 := make(chan res, 1), make(chan res, 1)
+		go func() { d1 <- redeem(p1, park.disarm) }()
+		var r1, r2 res
+		parked, waited := false, false
+		select {
+		case <-park.entered:
+			parked = true
+		case r1 = <-d1:
+		}
+		if !parked {
+			r2 = redeem(p2, nil)
+		} else {
+			go func() { d2 <- redeem(p2, nil) }()
+			got2 := false
+			select {
+			case r2 = <-d2:
+				got2 = true
+			case <-time.After(time.Duration(waitMs) * time.Millisecond):
+				waited = true // it waits for something the held request holds
+			}
+			close(park.release)
+			r1 = <-d1
+			if !got2 {
+				r2 = <-d2
+			}
+		}
+		if r1.err != nil || r2.err != nil {
+			return "harness-error " + strings.Join(strings.Fields(fmt.Sprint(r1.err, r2.err)), "_")
+		}
+		park.mu.Lock()
+		at := park.at
+		park.mu.Unlock()
+		outs = append(outs, fmt.Sprintf("k=%d parked=%s at=%s waited=%s || %s || %s", k, vfBool(parked), vfHex(at), vfBool(waited), r1.out, r2.out))
+		if !parked {
+			break
+		}
+	}
+	return "race | " + strings.Join(outs, " ;; ")
+}
+
 // TestVerifC12
 //
 //	tok <codeClient> <present> <secret> <verifier> <method> <redirect> <codeState> <place> <via>
@@ -770,6 +1032,19 @@ func TestVerifC12(t *testing.T) {
 			io.emit("%s", vf12Slow(f, e, le))
 			continue
 		}
+		if len(f) == 6 && f[0] == "uix" {
+			out, err := cur.vf12Uix(f)
+			if err != nil {
+				io.emit("harness-error %v", err)
+			} else {
+				io.emit("%s", out)
+			}
+			continue
+		}
+		if len(f) == 13 && f[0] == "race" {
+			io.emit("%s", cur.vf12Race(f))
+			continue
+		}
 		if len(f) == 9 && f[0] == "az" {
 			out, err := cur.vf12Az(f)
 			if err != nil {
@@ -811,6 +1086,17 @@ func TestVerifC12(t *testing.T) {
 		case "wrongkind":
 			kind = "bearer"
 		}
+		// round 5: `exp<±seconds>` = a code whose authorization happened 300 s before an expiry that lies
+		// <seconds> away from the moment of presentation (the same credential before / after its expiry)
+		backdated := false
+		if strings.HasPrefix(codeState, "exp+") || strings.HasPrefix(codeState, "exp-") {
+			var off int64
+			if _, serr := fmt.Sscanf(codeState[3:], "%d", &off); serr != nil {
+				io.emit("bad-op")
+				continue
+			}
+			exp, backdated = now+off, true
+		}
 		var code string
 		var err error
 		if via == "authz" {
@@ -820,7 +1106,9 @@ func TestVerifC12(t *testing.T) {
 			}
 			code, err = cur.vf12AuthzCode(codeClient, sealMethod, ch)
 		} else {
+			vf12MintBackdated = backdated
 			code, err = cur.vf12MintCode(codeClient, sealMethod, challenge, sealed, exp, kind)
+			vf12MintBackdated = false
 		}
 		if err != nil {
 			io.emit("harness-error %v", err)
